@@ -263,7 +263,9 @@ func headerString(f *Func) string {
 		fmt.Fprintf(buf, " partition %s", quote(f.Partition))
 	}
 	if f.Comdat != nil {
-		if f.Comdat.Name == f.Name() {
+		// The comdat name is omitted when it is the name of the global; an
+		// unnamed global has no name to stand in for it.
+		if !f.IsUnnamed() && f.Comdat.Name == f.Name() {
 			buf.WriteString(" comdat")
 		} else {
 			fmt.Fprintf(buf, " %s", f.Comdat)
